@@ -25,6 +25,11 @@ fn dist_names() -> Vec<Vec<u8>> {
         b"a".to_vec(),
         b"emul-patch-x".to_vec(),        // not emul-*-patch-*
         b"foo.patch-1".to_vec(),
+        // names that are trailing sub-paths of one another are different files
+        b"x.tgz".to_vec(),
+        b"dir/x.tgz".to_vec(),
+        b"v2/foo-1.0.tar.gz".to_vec(),
+        b"v2/v2/foo-1.0.tar.gz".to_vec(),
     ]
 }
 fn patch_names() -> Vec<Vec<u8>> {
@@ -35,6 +40,8 @@ fn patch_names() -> Vec<Vec<u8>> {
         b"patch-caf\xe9".to_vec(),
         b"patch-\xc3\xa0".to_vec(),
         b"sub/patch-ab".to_vec(),
+        b"patch-ab".to_vec(),
+        b"extra/patch-aa".to_vec(),
     ]
 }
 
@@ -111,7 +118,7 @@ fn build_calls(rng: &mut Rng) -> Vec<Vec<u8>> {
     let k = rng.range(0, 5);
     for n in names.iter().take(k) {
         let is_patch = n.starts_with(b"patch-a") || n.starts_with(b"patch-s") || n.starts_with(b"patch-c")
-            || n.starts_with(b"patch-\xc3") || n.starts_with(b"emul-linux") || n.starts_with(b"sub/patch");
+            || n.starts_with(b"patch-\xc3") || n.starts_with(b"emul-linux") || n.starts_with(b"sub/patch") || n.starts_with(b"extra/patch");
         let mut c = vec![1u8];
         c.extend(n);
         c.push(0);
@@ -273,6 +280,13 @@ fn gen_c11(tier: &str, rng: &mut Rng, emit: &mut dyn FnMut(Op)) {
         for _ in 0..nlines {
             if rng.chance(1, 4) {
                 doc.extend(junk_line(rng));
+            } else if rng.chance(1, 8) {
+                // "Size" is matched exactly: any other spelling is an unknown algorithm, ignored
+                let f = rng.pick(&files).clone();
+                doc.extend(rng.pick(&["SIZE", "size", "SiZe", "Sizes", "Siz", "Size:", "sIZE"]).as_bytes());
+                doc.extend(b" (");
+                doc.extend(&f);
+                doc.extend(format!(") = {}{}", rng.pick(&["5", "999", "0"]), rng.pick(&[" bytes", ""])).as_bytes());
             } else {
                 let f = rng.pick(&files).clone();
                 doc.extend(good_line(rng, &f));
@@ -416,15 +430,23 @@ fn gen_c12(tier: &str, rng: &mut Rng, emit: &mut dyn FnMut(Op)) {
                 _ => if is_patch { b"main.c.diff" } else { b"patch-zz" },
             };
             emit(Op::new("entry.verify", &[&doc, name, fname, &file, fplain.as_bytes(), fpatch.as_bytes()]));
+            if rng.chance(1, 3) {
+                // a recorded hash that is the EMPTY string (only the API can build it): a mismatch
+                // like any other, never "missing"
+                let blank: Vec<u8> = (0..6u8).filter(|_| rng.chance(1, 2)).map(|i| b'0' + i).collect();
+                emit(Op::new("entry.verify", &[&doc, name, fname, &file, fplain.as_bytes(), fpatch.as_bytes(), &blank]));
+            }
         }
     }
     // lookup: every subset of recorded names sharing tails x lookup paths of 1-5 components
-    let recs: [&[u8]; 5] = [b"a/b/c.tgz", b"b/c.tgz", b"c.tgz", b"patch-aa", b"p/patch-aa"];
-    let lookups: [&[u8]; 16] = [
+    let recs: [&[u8]; 7] = [b"a/b/c.tgz", b"b/c.tgz", b"c.tgz", b"patch-aa", b"p/patch-aa", b"/abs/a/b/c.tgz", b"/c.tgz"];
+    let lookups: [&[u8]; 23] = [
+        // absolute recorded names: the whole path (root included) is a trailing sub-path of itself
+        b"//abs/a/b/c.tgz", b"/a/b/c.tgz", b"/c.tgz", b"/x/c.tgz", b"abs/a/b/c.tgz", b"/abs//a/./b/c.tgz", b"/patch-aa",
         b"c.tgz", b"b/c.tgz", b"a/b/c.tgz", b"x/a/b/c.tgz", b"/abs/a/b/c.tgz", b"b//c.tgz", b"./b/c.tgz", b"b/./c.tgz",
         b"a/../b/c.tgz", b"patch-aa", b"p/patch-aa", b"q/p/patch-aa", b"d.tgz", b"", b"/", b"c.tgz/",
     ];
-    for mask in 0..32u32 {
+    for mask in 0..128u32 {
         let mut doc: Vec<u8> = vec![];
         for (i, r) in recs.iter().enumerate() {
             if mask & (1 << i) != 0 {
